@@ -70,7 +70,7 @@ BILINEAR = {
 NP_LINEAR_FIRST = {
     "sum", "tile", "reshape", "transpose", "roll", "ravel", "squeeze", "expand_dims", "swapaxes", "moveaxis",
     "ascontiguousarray", "asarray", "array", "copy", "flip", "cumsum", "mean", "repeat", "broadcast_to", "fftn", "ifftn",
-    "fft", "ifft", "fftshift", "ifftshift", "diff", "pad", "trace", "diagonal", "stack_first",
+    "fft", "ifft", "fftshift", "ifftshift", "diff", "pad", "trace", "diagonal", "stack_first", "split", "array_split",
 }
 NP_NONLINEAR = {"real", "imag", "abs", "absolute", "angle", "sqrt", "exp", "log", "sign", "clip", "maximum", "minimum",
                 "floor", "ceil", "round", "square", "power", "sin", "cos", "linalg.norm", "norm", "sort", "where"}
@@ -292,6 +292,19 @@ class Lin:
             for x in t.elts:
                 self.bind(x, k)
 
+    def bind_iter(self, target, it):
+        """`for a, b in zip(xs, ys)` binds a to elements of xs and b to elements of ys (not both to the join); enumerate likewise"""
+        if isinstance(it, ast.Call) and isinstance(it.func, ast.Name) and not it.keywords and isinstance(target, (ast.Tuple, ast.List)):
+            if it.func.id == "zip" and len(it.args) == len(target.elts) and not any(isinstance(a, ast.Starred) for a in it.args):
+                for t, a in zip(target.elts, it.args):
+                    self.bind_iter(t, a) if isinstance(t, (ast.Tuple, ast.List)) else self.bind(t, self.kind(a))
+                return
+            if it.func.id == "enumerate" and len(it.args) == 1 and len(target.elts) == 2:
+                self.bind(target.elts[0], K)
+                self.bind_iter(target.elts[1], it.args[0]) if isinstance(target.elts[1], (ast.Tuple, ast.List)) else self.bind(target.elts[1], self.kind(it.args[0]))
+                return
+        self.bind(target, self.kind(it))
+
     def block(self, stmts):
         for s in stmts:
             self.stmt(s)
@@ -365,7 +378,7 @@ class Lin:
             for _ in range(3):
                 e0 = dict(self.env)
                 if isinstance(s, ast.For):
-                    self.bind(s.target, self.kind(s.iter))
+                    self.bind_iter(s.target, s.iter)
                 self.block(s.body)
                 for k in set(e0) | set(self.env):
                     a, b = e0.get(k), self.env.get(k)
@@ -390,6 +403,27 @@ class Lin:
         stmts = list(s.body) + list(s.orelse)
         if not stmts:
             return False
+        # the test itself must be "the common type differs from the type of the buffer that is kept / cast": `d != buf.dtype` (or ==)
+        t = s.test
+        if isinstance(t, ast.UnaryOp) and isinstance(t.op, ast.Not):
+            t = t.operand
+        if not (isinstance(t, ast.Compare) and len(t.ops) == 1 and isinstance(t.ops[0], (ast.Eq, ast.NotEq))):
+            return False
+        sides = [t.left, t.comparators[0]]
+        dn = [x.id for x in sides if isinstance(x, ast.Name)]
+        bf = [x.value.id for x in sides if isinstance(x, ast.Attribute) and x.attr == "dtype" and isinstance(x.value, ast.Name)]
+        if len(dn) != 1 or len(bf) != 1 or not any(dn[0] == d and bf[0] in srcs for d, srcs in wide):
+            return False
+        buf = bf[0]
+        same = {buf}
+        for st in stmts:   # what is kept or cast is that very buffer (or a local the cast was just bound to)
+            v = st.value if isinstance(st, (ast.Assign, ast.Return)) else None
+            if isinstance(v, ast.Name) and v.id not in same:
+                return False
+            if isinstance(st, ast.Assign) and len(st.targets) == 1 and isinstance(st.targets[0], ast.Name):
+                same.add(st.targets[0].id)
+            if isinstance(v, ast.Call) and isinstance(v.func, ast.Attribute) and isinstance(v.func.value, ast.Name) and v.func.value.id != buf:
+                return False
         def widen(v):
             return isinstance(v, ast.Call) and isinstance(v.func, ast.Attribute) and v.func.attr == "astype" and isinstance(v.func.value, ast.Name) \
                 and len(v.args) == 1 and isinstance(v.args[0], ast.Name) and any(v.args[0].id == d and v.func.value.id in srcs for d, srcs in wide)
